@@ -784,6 +784,21 @@ func (e *Engine) globalFacts(fn *ssa.Function) []gfact {
 	e.gfacts[fn] = nil // recursion guard
 	var out []gfact
 	kit.Instrs(fn, func(in ssa.Instruction) {
+		if cv, isCv := in.(*ssa.Convert); isCv {
+			// uintN(len(s)): truncating a non-negative integer never yields more than the integer itself
+			if lc, isCall := cv.X.(*ssa.Call); isCall {
+				if b, isB := lc.Call.Value.(*ssa.Builtin); isB && (b.Name() == "len" || b.Name() == "cap") && len(lc.Call.Args) == 1 {
+					if _, uns, isInt := intInfo(cv.Type()); isInt && uns {
+						if _, opaque := e.Lin(cv).T[Sym{K: e.key(cv)}]; opaque {
+							c := cv
+							f := Fact{e.Lin(cv.X).Sub(e.Lin(cv)), "a " + cv.Type().String() + " conversion of a length is at most that length"}
+							out = append(out, gfact{f, func(b *ssa.BasicBlock, i int) bool { return instrDominatesPoint(c, b, i) }})
+						}
+					}
+				}
+			}
+			return
+		}
 		call, ok := in.(*ssa.Call)
 		if !ok {
 			return
